@@ -65,6 +65,10 @@ def minimise(chk, case, cls, execute_case):
                 if chunk == 1:
                     break
                 n = min(len(ops), n * 2)
+    if (best.get("env") or {}).get("warnings") == "error":
+        cand = dict(best, env={k: v for k, v in best["env"].items() if k != "warnings"})
+        if test(cand):
+            best = cand
     if (best.get("env") or {}).get("logging", "off") != "off":
         cand = dict(best, env=dict(best["env"], logging="off"))
         if test(cand):
